@@ -117,6 +117,7 @@ for name, commit, props, file in [
     ("d2_reintroduced_option_timeout_double_drop", "afac4a8", ["C05", "C13"], "src/lib.rs"),
     ("d3_reintroduced_send_future_stale_waker", "6e741dd", ["C16", "C06"], "src/future.rs"),
     ("d4_reintroduced_recv_future_waker_race", "6b56da1", ["C07"], "src/future.rs"),
+    ("d6_reintroduced_deadline_overflow_panic", "6bd7f79", ["C18", "C13"], "src/lib.rs"),
 ]:
     d = sh("git", "-C", "/repo", "diff", commit, commit + "~1", "--", "src").stdout
     open(os.path.join(OUT, name + ".diff"), "w").write(d)
